@@ -6,6 +6,7 @@ import (
 	"reflect"
 	"testing"
 
+	zap "github.com/blevesearch/zapx/v16"
 	"pgregory.net/rapid"
 
 	"verifharness/drive"
@@ -17,6 +18,10 @@ import (
 
 type planCase struct {
 	Plan *spec.MergePlan `json:"plan"`
+	// DVChunk is the doc-value chunk size (zap.LegacyChunkMode) for the whole case, writer and
+	// reader alike; 0 = the default 1024. Small values give doc-value fields many chunks, some
+	// of them empty, with a handful of documents.
+	DVChunk uint32 `json:"dvChunk,omitempty"`
 }
 
 type planGenOpts struct {
@@ -71,6 +76,11 @@ func walkPlan(p *spec.MergePlan, f func(*spec.MergePlan)) {
 
 func runPlanCase(c planCase, o planCheckOpts) *Violation {
 	prop := o.prop
+	if c.DVChunk != 0 {
+		old := zap.LegacyChunkMode
+		zap.LegacyChunkMode = c.DVChunk
+		defer func() { zap.LegacyChunkMode = old }()
+	}
 	var res *drive.PlanResult
 	err := drive.Safe(func() error {
 		var e error
@@ -344,7 +354,34 @@ func sharedTermAcrossInputs(p *spec.MergePlan) bool {
 var c06 = Check[planCase]{
 	Property: "C06", Stage: "merge-index",
 	Gen: func(t *rapid.T) planCase {
-		return genPlanCase(t, planGenOpts{chunkModes: true, forceDV: true, wide: true})
+		c := genPlanCase(t, planGenOpts{chunkModes: true, forceDV: true, wide: true})
+		if gen.Chance(t, "smallDVChunk", 40) {
+			c.DVChunk = rapid.SampledFrom([]uint32{2, 3, 1, 4, 5}).Draw(t, "dvChunk")
+			// a doc-value field that fills one chunk of a leaf and is absent from the whole next one
+			n := int(c.DVChunk)
+			li := 0
+			walkPlan(c.Plan, func(p *spec.MergePlan) {
+				if !p.IsLeaf() || p.Leaf.Wide != nil || len(p.Leaf.Docs) < 2*n {
+					return
+				}
+				li++
+				if !gen.Chance(t, fmt.Sprintf("gap%d", li), 70) {
+					return
+				}
+				for i := range p.Leaf.Docs {
+					if i >= n && i < 2*n {
+						continue
+					}
+					if i >= 2*n && !rapid.Bool().Draw(t, fmt.Sprintf("gap%dd%d", li, i)) {
+						continue
+					}
+					term := rapid.SampledFrom([]string{"g", "h", ""}).Draw(t, fmt.Sprintf("gap%dt%d", li, i))
+					p.Leaf.Docs[i].Fields = append(p.Leaf.Docs[i].Fields, spec.FieldSpec{Name: "gapf", Type: 't', DV: true, Len: 1,
+						Tokens: []spec.TokenSpec{{Term: spec.B(term), Freq: 1}}})
+				}
+			})
+		}
+		return c
 	},
 	Run: func(c planCase) *Violation {
 		return runPlanCase(c, planCheckOpts{prop: "C06", index: true, dv: true})
@@ -354,6 +391,9 @@ var c06 = Check[planCase]{
 		sh := sharedTermAcrossInputs(c.Plan)
 		if sh {
 			cl = append(cl, "term-in-several-inputs")
+		}
+		if c.DVChunk != 0 {
+			cl = append(cl, "doc-value-chunks-of-1..5-docs")
 		}
 		return del >= 1 && sh, cl
 	},
